@@ -691,6 +691,14 @@ def run(ctx):
     enumerate_singles(ctx, [({"file": ZOO}, 1, 0)], "all single structural faults of the item-definition / requirement zoo model", True)
     if ctx.stop():
         return
+    # compound class "duplicate a top-level element and retarget a reference in ONE copy" (two elements, one id, different references),
+    # complete for the zoo model and the generated models, every run
+    dm_bases = [{"file": ZOO}] + gens
+    ctx.enumerate(ctx.p_single, ({"base": b, "faults": [f]} for b in dm_bases for f in load_base(b)[0].dup_mut_faults()), batch=6,
+                  name="duplicate + diverging reference: every top-level element with an id x every reference fault in one copy (zoo + generated models)",
+                  exhaustive=True)
+    if ctx.stop():
+        return
     ctx.enumerate(ctx.p_min, ({"min": k} for k in MINIMAL if ctx.thorough() or k not in SLOW_MINIMAL), batch=1,
                   name="hand-minimised models of findings/C12.md", exhaustive=True)
     if ctx.stop():
